@@ -28,7 +28,7 @@ PROPS = {
     "C07": dict(n=7, tags=['V', 'T'], fields=[], title="liveness and summary queries"),
     "C08": dict(n=8, tags=['H', 'F'], fields=["hash", "hist", "init_hash"], title="hash = from-scratch hash"),
     "C09": dict(n=9, tags=['N'], fields=["board", "side", "move_no", "phase"], title="setup", gens=["setup"]),
-    "C10": dict(n=10, tags=['D'], fields=["board"], title="consistent views"),
+    "C10": dict(n=10, tags=['D', 'W'], fields=["board"], title="consistent views"),
     "C11": dict(n=11, tags=[], fields=[], title="symmetry"),
     "C12": dict(n=12, tags=['N'], fields=["pps"], title="push/pull status"),
     "C13": dict(n=13, tags=['K'], fields=[], title="capture preview"),
